@@ -5,7 +5,7 @@
 //! login, generated password), an interactive login with or without the privileged flag, 0..3
 //! re-authentications (grant read-write / verify only, right / wrong credentials) at times chosen
 //! around the privilege window and the session expiry, plus anonymous logins, read-only and read-write
-//! API tokens, LDAP password binds, LDAP binds with API tokens and client-certificate identities. Every token is then presented at
+//! API tokens, LDAP password binds, LDAP binds with API tokens, client-certificate identities and logins through a trusted external OAuth2 provider. Every token is then presented at
 //! times on both sides of every edge (issue, privilege window end, expiry) and at random times.
 //!
 //! Oracle: the scope of the identity is ReadWrite ⇒ the token is a read-write API token, or it came
@@ -13,7 +13,8 @@
 //! privilege-capable login type, and issue ≤ t < issue + W where W is the bound the HARNESS
 //! configured (min(P, 3600) for re-authentication, min(S, 3600) for a privileged login).
 //! Anonymous, LDAP-password, client-certificate identities and read-only API tokens are never
-//! ReadWrite (OAuth2-trust logins are not driven). A re-issued token never
+//! ReadWrite; neither are logins through a trusted external OAuth2 provider, with or without
+//! the privileged flag at init (the front end's provider round trips are scripted). A re-issued token never
 //! expires later than the token it was derived from.
 
 use crate::sim::*;
@@ -56,6 +57,8 @@ enum Kind {
     LdapApiRo,
     LdapApiRw,
     Certificate,
+    /// login through an external OAuth2 provider the server trusts
+    Trust,
 }
 
 impl Kind {
@@ -69,6 +72,7 @@ impl Kind {
             Kind::LdapApiRo => "ldap-bind-with-readonly-api-token".into(),
             Kind::LdapApiRw => "ldap-bind-with-readwrite-api-token".into(),
             Kind::Certificate => "client-certificate".into(),
+            Kind::Trust => "oauth2-trust".into(),
         }
     }
 }
@@ -95,6 +99,8 @@ struct World {
     svc: Uuid,
     n: u64,
     cci: Option<ClientCertInfo>,
+    /// the trusted external OAuth2 provider, if it could be set up
+    trust: Option<Uuid>,
 }
 
 impl World {
@@ -147,7 +153,7 @@ fn judge(acc: &mut Acc, tok: &mut Tok, t: u64, scope: &AccessScope, scen: &Json)
     };
     match tok.kind {
         Kind::ApiRw | Kind::LdapApiRw => acc.count(&format!("rw.{kname}")),
-        Kind::ApiRo | Kind::LdapApiRo | Kind::LdapPw | Kind::Anonymous | Kind::Certificate => {
+        Kind::ApiRo | Kind::LdapApiRo | Kind::LdapPw | Kind::Anonymous | Kind::Certificate | Kind::Trust => {
             acc.violation(
                 &format!("c33/write-scope-for-readonly-login-type/{kname}"),
                 witness("this login type must always be read-only".into()),
@@ -412,6 +418,49 @@ async fn scenario(w: &mut World, rng: &mut Rng, acc: &mut Acc) {
             }
         }
     }
+    // ---- a person who authenticates at the trusted external provider, with and without asking for
+    // privileges at init
+    if let (Some(provider), true) = (w.trust, rng.chance(1, 3)) {
+        w.t += 1;
+        let tname = format!("c33t{}", w.n);
+        let tuuid = rng.uuid();
+        let sub = format!("sub-{}", w.n);
+        let ok = async {
+            w.sim.create_person(&tname, tuuid, false, secs(w.t)).await?;
+            w.sim.link_trust(tuuid, provider, &sub, secs(w.t + 1)).await
+        }
+        .await;
+        w.t += 2;
+        match ok {
+            Err(e) => acc.observe("trust_setup_errors", &format!("{e:?}")),
+            Ok(()) => {
+                let asked = rng.bool();
+                match w.sim.login_trust(&tname, asked, &sub, secs(w.t)).await {
+                    Ok(jws) => {
+                        acc.count(if asked { "trust_login.ok.privileged_flag" } else { "trust_login.ok.plain" });
+                        let exp = parse_uat(&jws).and_then(|u| u.expiry).map(|e| e.unix_timestamp() as u64);
+                        let _ = w.sim.drain(secs(w.t)).await;
+                        toks.push(Tok {
+                            kind: Kind::Trust,
+                            jws: Some(jws),
+                            ldap: None,
+                            issued: w.t,
+                            expiry: exp,
+                            window: None,
+                            origin: if asked { "login privileged" } else { "login" },
+                            unjudged_rw: false,
+                            accepted_inside: false,
+                            accepted_after: false,
+                        });
+                    }
+                    Err(e) => {
+                        acc.count("trust_login.failed");
+                        acc.observe("trust_login_failures", &e.chars().take(100).collect::<String>());
+                    }
+                }
+            }
+        }
+    }
     // ---- other login types (cheap, a third of the scenarios each)
     if rng.chance(1, 3) {
         w.t += 1;
@@ -645,7 +694,15 @@ pub fn run(args: Args) {
                     None
                 }
             };
-            let mut world = World { sim, t: t + 10, svc, n: 0, cci };
+            let trust = rng.uuid();
+            let trust = match sim.create_trust_provider(&format!("c33idp{wk}"), trust, secs(t + 3)).await {
+                Ok(()) => Some(trust),
+                Err(e) => {
+                    acc.inconclusive(&format!("trust provider setup: {e:?}"));
+                    None
+                }
+            };
+            let mut world = World { sim, t: t + 10, svc, n: 0, cci, trust };
             let mut i = wk as u64;
             while i < scenarios {
                 scenario(&mut world, &mut rng, &mut acc).await;
@@ -671,6 +728,8 @@ pub fn run(args: Args) {
         "ro.ldap-bind-with-readonly-api-token.ldap bind",
         "rw.ldap-bind-with-readwrite-api-token",
         "ro.client-certificate.client certificate",
+        "ro.oauth2-trust.login",
+        "ro.oauth2-trust.login privileged",
         "reauth.ok.grant",
         "reauth.ok.verify_only",
         "reauth.refused.wrong_credentials",
